@@ -157,6 +157,11 @@ example : Heap.run ([] : World Nat) [.alloc 0 [10], .alloc 1 [10], .write 1 1 99
 
 end heap
 
+/-! non-vacuity: a table of 3 + 2 + 1 rows read from the middle of the first repeated run to the middle of the second -/
+example :
+    tableTraverse (Odf.Table.parse [(0, 2)] [([(7, 2)], 3), ([(8, 1), (9, 1)], 2), ([(5, 2)], 1)]) 1 (some 3) =
+      [(1, [(7, 2)], none), (2, [(7, 2)], none), (3, [(8, 1), (9, 1)], none)] := by decide +kernel
+
 /-! non-vacuity: a repeated run read from its last position -/
 example : rowTraverseRange (rowObj [(1, 1), (7, 3), (2, 1)]) 3 (some 4) = [(3, 7, none), (4, 2, none)] := by
   decide +kernel
